@@ -526,6 +526,60 @@ def coalesce_copies(tree):
     return n
 
 
+def sink_return_into_branches(tree):
+    """`if c: n = a` / `else: n = b` immediately followed by `return E(n)` -> `if c: return E(a)` / `else: return E(b)` when a and b are
+    plain references (or n is read once) and n is read nowhere else: a conditionally chosen constructor / function / operand
+    (`wrap = Adjoint if .. else Transpose; return wrap(x)`) becomes one exit per choice"""
+    n_done = 0
+
+    def plain(e):
+        return isinstance(e, (ast.Name, ast.Constant)) or (isinstance(e, ast.Attribute) and plain(e.value))
+
+    for fn in [x for x in ast.walk(tree) if isinstance(x, (ast.FunctionDef, ast.AsyncFunctionDef))]:
+        changed = True
+        while changed:
+            changed = False
+            for owner in ast.walk(fn):
+                for f in ("body", "orelse", "finalbody"):
+                    blk = getattr(owner, f, None)
+                    if not (isinstance(blk, list) and blk and isinstance(blk[0], ast.stmt)):
+                        continue
+                    for i in range(len(blk) - 1):
+                        st, nxt = blk[i], blk[i + 1]
+                        if not (isinstance(st, ast.If) and isinstance(nxt, ast.Return) and nxt.value is not None and len(st.body) == 1 and len(st.orelse) == 1):
+                            continue
+                        a_, b_ = st.body[0], st.orelse[0]
+                        if not all(isinstance(x, ast.Assign) and len(x.targets) == 1 and isinstance(x.targets[0], ast.Name) for x in (a_, b_)):
+                            continue
+                        nm = a_.targets[0].id
+                        if b_.targets[0].id != nm:
+                            continue
+                        uses_ret = [x for x in ast.walk(nxt.value) if isinstance(x, ast.Name) and x.id == nm]
+                        all_refs = [x for x in ast.walk(fn) if isinstance(x, ast.Name) and x.id == nm]
+                        if not uses_ret or len(all_refs) != len(uses_ret) + 2:
+                            continue
+                        if any(isinstance(x, (ast.Lambda, ast.ListComp, ast.GeneratorExp, ast.SetComp, ast.DictComp)) and any(isinstance(y, ast.Name) and y.id == nm for y in ast.walk(x))
+                               for x in ast.walk(nxt.value)):
+                            continue
+                        if not ((plain(a_.value) and plain(b_.value)) or len(uses_ret) == 1):
+                            continue
+                        ra = ast.Return(value=_Subst({nm: a_.value}).visit(_copy(nxt.value)))
+                        rb = ast.Return(value=_Subst({nm: b_.value}).visit(_copy(nxt.value)))
+                        ast.copy_location(ra, a_)
+                        ast.copy_location(rb, b_)
+                        st.body, st.orelse = [ra], [rb]
+                        del blk[i + 1]
+                        ast.fix_missing_locations(st)
+                        n_done += 1
+                        changed = True
+                        break
+                    if changed:
+                        break
+                if changed:
+                    break
+    return n_done
+
+
 def _temps_and_tuples(tree):
     total = unroll_literal_comprehensions(tree) + flatten_starred_literals(tree) + merge_rebindings(tree) + coalesce_copies(tree) + version_rebindings(tree) + propagate_copies(tree)
     # temporaries first: `t1 = e1; t2 = e2; a, b = t1, t2` must become `a, b = e1, e2` before deciding whether that assignment splits
@@ -537,13 +591,66 @@ def _temps_and_tuples(tree):
             if not split_tuple_assignments(tree):
                 break
             ast.fix_missing_locations(tree)
+    total += sink_return_into_branches(tree)
     return total
+
+
+def flatten_internal_bases(tree):
+    """a class whose direct base is an INTERNAL class of the same module (name with a leading underscore: a mixin / template extracted
+    from several operator classes) receives copies of the methods it inherits from it: every operator class then carries its own
+    constructor and helpers again, where the hooks it overrides (`self._combined_shape(..)`) are resolved.  Zero-argument super() in a
+    copied method is spelled out as super(Base, self): it must keep meaning "after Base"."""
+    classes = {c.name: c for c in tree.body if isinstance(c, ast.ClassDef)}
+    n = 0
+
+    def base_name(b):
+        return ast.unparse(b).split("[")[0].split(".")[-1]
+
+    def inherited(cname, seen=()):
+        """[(defining class, FunctionDef)] along the chain of internal bases, nearest first"""
+        out = []
+        c = classes[cname]
+        for b in c.bases:
+            bn = base_name(b)
+            if bn in classes and bn not in seen and bn.startswith("_") and not bn.startswith("__"):
+                out += [(bn, m) for m in classes[bn].body if isinstance(m, ast.FunctionDef)]
+                out += inherited(bn, seen + (cname, ))
+                break
+        return out
+
+    for cname, c in classes.items():
+        if cname.startswith("_") and not cname.startswith("__"):
+            continue  # the internal bases themselves stay as they are
+        own = {m.name for m in c.body if isinstance(m, ast.FunctionDef)}
+        new_methods = []
+        for bn, m in inherited(cname):
+            if m.name in own:
+                continue
+            decos = [ast.unparse(d) for d in m.decorator_list]
+            if any(d not in ("staticmethod", ) for d in decos):
+                continue
+            own.add(m.name)
+            cp = _copy(m)
+            if "staticmethod" not in decos and cp.args.args:
+                selfname = cp.args.args[0].arg
+                for x in ast.walk(cp):
+                    if isinstance(x, ast.Call) and isinstance(x.func, ast.Name) and x.func.id == "super" and not x.args:
+                        x.args = [ast.Name(id=bn, ctx=ast.Load()), ast.Name(id=selfname, ctx=ast.Load())]
+            new_methods.append(cp)
+            n += 1
+        if new_methods:
+            # after the class-level assignments / docstring, before the class's own methods
+            k = next((i for i, st in enumerate(c.body) if isinstance(st, ast.FunctionDef)), len(c.body))
+            c.body[k:k] = new_methods
+    if n:
+        ast.fix_missing_locations(tree)
+    return n
 
 
 def normalise(tree):
     """in place; returns the number of rewrites.  Order: temporaries and tuple assignments, append loops, private helpers
     (whose bodies are then already in normal form), and temporaries / tuples once more for what the inlining exposed"""
-    total = namedtuples_to_tuples(tree) + unroll_literal_loops(tree) + partials_to_defs(tree) + split_on_shared_predicates(tree) + split_conditional_returns(tree)
+    total = flatten_internal_bases(tree) + namedtuples_to_tuples(tree) + unroll_literal_loops(tree) + partials_to_defs(tree) + split_on_shared_predicates(tree) + split_conditional_returns(tree)
     ast.fix_missing_locations(tree)
     total += _temps_and_tuples(tree)
     n = append_loops_to_comprehensions(tree) + fuse_comprehensions(tree)
@@ -1101,7 +1208,7 @@ _NO_INLINE_INSIDE = (ast.Lambda, ast.ListComp, ast.GeneratorExp, ast.SetComp, as
 _PROTOCOL_METHODS = {"_matmat", "_rmatmat", "_matvec", "_rmatvec"}
 
 
-def _helper_ok(st, body):
+def _helper_ok(st, body, allow_super=False):
     if any(isinstance(x, (ast.FunctionDef, ast.AsyncFunctionDef, ast.ClassDef, ast.Lambda, ast.Yield, ast.YieldFrom, ast.Await, ast.NamedExpr, ast.Global, ast.Nonlocal))
            for s in body for x in ast.walk(s)):
         return False
@@ -1109,9 +1216,10 @@ def _helper_ok(st, body):
         for x in ast.walk(s):
             if isinstance(x, ast.Call):
                 f = x.func
-                if (isinstance(f, ast.Name) and f.id == st.name) or (isinstance(f, ast.Attribute) and f.attr == st.name):
+                via_super = isinstance(f, ast.Attribute) and isinstance(f.value, ast.Call) and isinstance(f.value.func, ast.Name) and f.value.func.id == "super"
+                if (isinstance(f, ast.Name) and f.id == st.name) or (isinstance(f, ast.Attribute) and f.attr == st.name and not via_super):
                     return False  # recursive
-                if isinstance(f, ast.Name) and f.id in ("super", "locals", "vars"):
+                if isinstance(f, ast.Name) and f.id in ("super", "locals", "vars") and not (allow_super and f.id == "super" and not x.args):
                     return False
     return True
 
@@ -1140,22 +1248,58 @@ def _inlinable_helpers(tree):
                 if isinstance(m, ast.FunctionDef):
                     defined.setdefault(m.name, []).append(m)
 
+    methods = out.setdefault("<methods>", {})  # (class name, method name) -> (def, kind): resolved per class at the call site
+
     def consider(st, kind, cls=None):
-        if not (st.name.startswith("_") and not st.name.startswith("__")) or st.name in _PROTOCOL_METHODS or len(defined.get(st.name, [])) != 1:
+        private = st.name.startswith("_") and not st.name.startswith("__")
+        if cls is not None:
+            # methods: private ones, and every method of a private (internal) base class -- reached through `super().m(..)`
+            internal_base = cls.name.startswith("_") and not cls.name.startswith("__")
+            if not (private or internal_base) or st.name in _PROTOCOL_METHODS:
+                return
+        elif not private or len(defined.get(st.name, [])) != 1:
             return
         a = st.args
         if a.kwarg or a.posonlyargs:
             return
         body = [s for s in st.body if not (isinstance(s, ast.Expr) and isinstance(s.value, ast.Constant))]
-        if not body or not _helper_ok(st, body) or _helper_shape(body) is None:
+        if not body or not _helper_ok(st, body, allow_super=cls is not None) or _helper_shape(body) is None:
             return
         if kind == "method" and not a.args:
             return
-        out[st.name] = (st, kind, cls)
+        if cls is not None:
+            methods[(cls.name, st.name)] = (st, kind)
+        else:
+            out[st.name] = (st, kind, cls)
+
+    def consider_flag_helper(st):
+        """a public module-level function some parameter of which is only ever tested (`if flag:` / `x if flag else y`): calls that pass
+        a literal for it are specialised (two functions merged into one parameterised function)"""
+        if st.name in out or st.name.startswith("__") or len(defined.get(st.name, [])) != 1 or st.decorator_list:
+            return
+        a = st.args
+        if a.kwarg or a.posonlyargs or a.vararg:
+            return
+        body = [s for s in st.body if not (isinstance(s, ast.Expr) and isinstance(s.value, ast.Constant))]
+        if not body or len(body) > 25 or not _helper_ok(st, body) or _helper_shape(body) is None:
+            return
+        flags = set()
+        for x in ast.walk(st):
+            t = x.test if isinstance(x, (ast.If, ast.IfExp)) else None
+            if isinstance(t, ast.UnaryOp) and isinstance(t.op, ast.Not):
+                t = t.operand
+            if isinstance(t, ast.Name):
+                flags.add(t.id)
+        params = {p.arg for p in a.args + a.kwonlyargs}
+        stored = {x.id for x in ast.walk(st) if isinstance(x, ast.Name) and isinstance(x.ctx, ast.Store)}
+        flags = (flags & params) - stored
+        if flags:
+            out[st.name] = (st, "flagfunc", flags)
 
     for st in tree.body:
         if isinstance(st, ast.FunctionDef) and not st.decorator_list:
             consider(st, "func")
+            consider_flag_helper(st)
         elif isinstance(st, ast.ClassDef):
             for m in st.body:
                 if isinstance(m, ast.FunctionDef):
@@ -1237,6 +1381,49 @@ def _copy(node):
     return copy.deepcopy(node)
 
 
+def _returns_to_assignments(stmts, target):
+    """a statement list in which every path ends in `return e` (if / else tree, `raise` allowed) rewritten so that every leaf assigns
+    `target = e` instead; None when a return sits inside a loop / try / with or a path falls off the end"""
+    def always_exits(blk):
+        if not blk:
+            return False
+        last = blk[-1]
+        return isinstance(last, (ast.Return, ast.Raise)) or (isinstance(last, ast.If) and always_exits(last.body) and always_exits(last.orelse))
+
+    def has_return(node):
+        return any(isinstance(x, ast.Return) for x in ast.walk(node))
+
+    def conv(blk):
+        out = []
+        for i, st in enumerate(blk):
+            if isinstance(st, ast.Return):
+                if st.value is None:
+                    return None
+                out.append(ast.Assign(targets=[ast.Name(id=target, ctx=ast.Store())], value=st.value, lineno=getattr(st, "lineno", 1)))
+                return out
+            if isinstance(st, ast.Raise):
+                out.append(st)
+                return out
+            if isinstance(st, ast.If) and has_return(st):
+                rest = blk[i + 1:]
+                if always_exits(st.body):
+                    b, o = conv(st.body), conv(st.orelse + rest)
+                elif always_exits(st.orelse):
+                    b, o = conv(st.body + rest), conv(st.orelse)
+                else:
+                    return None
+                if b is None or o is None:
+                    return None
+                out.append(ast.If(test=st.test, body=b or [ast.Pass()], orelse=o))
+                return out
+            if has_return(st):
+                return None
+            out.append(st)
+        return None  # fell off the end without a value
+
+    return conv(list(stmts))
+
+
 def inline_helpers(tree):
     """in place; returns the number of call sites inlined.  Helpers are private module-level functions and private (static) methods
     of the module's classes that no other class of the module re-defines; a call `name(..)` / `self._name(..)` is replaced by the
@@ -1244,11 +1431,48 @@ def inline_helpers(tree):
     place of `return helper(..)` (any shape), or as one expression where statements cannot be placed (inside a comprehension, a
     conditional expression or a lambda; only helpers that reduce to one expression)."""
     helpers = _inlinable_helpers(tree)
-    if not helpers:
-        return 0
     counter = [0]
     total = [0]
+    # nested helper functions: a def inside a function (not re-bound, no nested scopes of its own, no default arguments that capture),
+    # called by name inside that function or its other nested functions -- keyed by the id of the outermost function
+    local_helpers = {}
+
+    def collect_local(outer):
+        table = {}
+        names_stored = {}
+        for x in ast.walk(outer):
+            if isinstance(x, ast.Name) and isinstance(x.ctx, ast.Store):
+                names_stored[x.id] = names_stored.get(x.id, 0) + 1
+        defs_ = {}
+        for x in ast.walk(outer):
+            if isinstance(x, ast.FunctionDef) and x is not outer:
+                defs_.setdefault(x.name, []).append(x)
+        for nm, ds in defs_.items():
+            if len(ds) != 1 or names_stored.get(nm) or ds[0].decorator_list:
+                continue
+            h = ds[0]
+            a = h.args
+            if a.kwarg or a.posonlyargs or a.vararg or a.defaults or a.kw_defaults:
+                continue
+            body = [s_ for s_ in h.body if not (isinstance(s_, ast.Expr) and isinstance(s_.value, ast.Constant))]
+            if not body or not _helper_ok(h, body) or _helper_shape(body) not in ("straight", ):
+                continue
+            # only helpers that are CALLED (never passed around as a value: loop bodies, callbacks stay what they are)
+            loads = [x for x in ast.walk(outer) if isinstance(x, ast.Name) and x.id == nm and isinstance(x.ctx, ast.Load)]
+            called = [x for x in ast.walk(outer) if isinstance(x, ast.Call) and isinstance(x.func, ast.Name) and x.func.id == nm]
+            if not called or len(loads) != len(called):
+                continue
+            table[nm] = h
+        return table
+
+    for st_ in tree.body:
+        fns_ = [st_] if isinstance(st_, ast.FunctionDef) else ([m for m in st_.body if isinstance(m, ast.FunctionDef)] if isinstance(st_, ast.ClassDef) else [])
+        for f_ in fns_:
+            t_ = collect_local(f_)
+            if t_:
+                local_helpers[id(f_)] = t_
     bases = {c.name: [ast.unparse(b).split("[")[0].split(".")[-1] for b in c.bases] for c in tree.body if isinstance(c, ast.ClassDef)}
+    all_methods = {(c.name, m.name) for c in tree.body if isinstance(c, ast.ClassDef) for m in c.body if isinstance(m, ast.FunctionDef)}
 
     def derives(cname, target):
         seen, work = set(), [cname]
@@ -1265,16 +1489,59 @@ def inline_helpers(tree):
     def lookup(call, ctx):
         """ctx = (name of the function being processed, its class or None, the name of its `self`) -> (def, kind, self name) or None"""
         f = call.func
+        if isinstance(f, ast.Name) and f.id in local_helpers.get(ctx[4] if len(ctx) > 4 else None, {}) and f.id != ctx[0]:
+            h = local_helpers[ctx[4]][f.id]
+            own = {a_.arg for a_ in h.args.args + h.args.kwonlyargs} | {x.id for x in ast.walk(h) if isinstance(x, ast.Name) and isinstance(x.ctx, ast.Store)}
+            free = {x.id for x in ast.walk(h) if isinstance(x, ast.Name) and isinstance(x.ctx, ast.Load)} - own
+            if not (free & (ctx[5] if len(ctx) > 5 else set())):  # a caller's local of the same name would capture the helper's free variable
+                return h, "func", None
+            return None
         if isinstance(f, ast.Name) and f.id in helpers and helpers[f.id][1] == "func" and f.id != ctx[0]:
             return helpers[f.id][0], "func", None
-        if isinstance(f, ast.Attribute) and f.attr in helpers and f.attr != ctx[0] and isinstance(f.value, ast.Name):
-            fn, kind, cls = helpers[f.attr]
-            if kind == "func" or ctx[1] is None or not derives(ctx[1], cls.name):
+        if isinstance(f, ast.Name) and f.id in helpers and helpers[f.id][1] == "flagfunc" and f.id != ctx[0]:
+            fn, _, flags = helpers[f.id]
+            b = _bind(fn, call, 0)
+            if b is not None and not b[1] and any(isinstance(b[0].get(fl), ast.Constant) and isinstance(b[0][fl].value, (bool, type(None))) for fl in flags):
+                return fn, "func", None
+            return None
+        methods = helpers.get("<methods>", {})
+        if isinstance(f, ast.Attribute) and f.attr != ctx[0] and isinstance(f.value, ast.Name) and ctx[1] is not None:
+            recv = f.value.id
+            start = ctx[1] if (ctx[2] is not None and recv == ctx[2]) else (recv if recv in bases else None)
+            if start is None:
                 return None
-            if ctx[2] is not None and f.value.id == ctx[2]:
-                return fn, kind, ctx[2]
-            if kind == "static" and f.value.id == cls.name:
-                return fn, kind, None
+            # the definition `start`'s instances use: first class on its (module-local, single-inheritance) base chain that defines it,
+            # provided no subclass of `start` in the module overrides it
+            if any(derives(c_, start) and c_ != start and (c_, f.attr) in all_methods for c_ in bases):
+                return None
+            c_ = start
+            seen_ = set()
+            while c_ is not None and c_ not in seen_:
+                seen_.add(c_)
+                if (c_, f.attr) in all_methods:
+                    hit = methods.get((c_, f.attr))
+                    if hit is None:
+                        return None
+                    fn, kind = hit
+                    if recv == ctx[2]:
+                        return fn, kind, (ctx[2] if kind == "method" else None), c_
+                    return (fn, kind, None, c_) if kind == "static" else None
+                c_ = next((b for b in bases.get(c_, []) if b in bases), None)
+            return None
+        # super().m(..) where the direct base is an internal (underscore) class of this module
+        if isinstance(f, ast.Attribute) and isinstance(f.value, ast.Call) and isinstance(f.value.func, ast.Name) and f.value.func.id == "super" and not f.value.args \
+                and ctx[1] is not None and ctx[2] is not None and f.attr == ctx[0]:
+            b = next((b for b in bases.get(ctx[1], []) if b in bases), None)
+            c_ = b
+            seen_ = set()
+            while c_ is not None and c_ not in seen_:
+                seen_.add(c_)
+                if (c_, f.attr) in all_methods:
+                    hit = methods.get((c_, f.attr))
+                    if hit is None or hit[1] != "method":
+                        return None
+                    return hit[0], "method", ctx[2], c_
+                c_ = next((x for x in bases.get(c_, []) if x in bases), None)
         return None
 
     def body_of(fn):
@@ -1317,7 +1584,8 @@ def inline_helpers(tree):
         """-> (prefix statements, the helper's body with parameters bound and conditionals on constant arguments resolved) or None.
         direct_args: no prefix statements may be produced -- every argument is substituted where it is used (refused when a
         non-trivial argument is used more than once, or a parameter is re-bound)"""
-        fn, kind, selfname = hit
+        fn, kind, selfname = hit[:3]
+        defining = hit[3] if len(hit) > 3 else None
         body = body_of(fn)
         if not body:
             return None
@@ -1325,6 +1593,13 @@ def inline_helpers(tree):
         if res is None:
             return None
         bound, star_pre = res
+        if defining is not None and selfname is not None:
+            # zero-argument super() means "after the class this method is written in": spelled out, since the body moves to another class
+            body = [_copy(s_) for s_ in body]
+            for s_ in body:
+                for x in ast.walk(s_):
+                    if isinstance(x, ast.Call) and isinstance(x.func, ast.Name) and x.func.id == "super" and not x.args:
+                        x.args = [ast.Name(id=defining, ctx=ast.Load()), ast.Name(id=fn.args.args[0].arg, ctx=ast.Load())]
         if direct_args:
             if star_pre:
                 return None
@@ -1380,8 +1655,17 @@ def inline_helpers(tree):
                 return None
             return pre + stmts, ast.Constant(value=None)
         if shape not in ("straight", "single-exit"):
-            counter[0] = save
-            return None
+            # several exits, each at the end of its path (a decision tree of if / else): `x = helper(..)` becomes the tree with `_ret = e`
+            # at the leaves
+            ret = f"_inl{counter[0]}_ret"
+            tree_ = _returns_to_assignments(stmts, ret)
+            if tree_ is None:
+                counter[0] = save
+                return None
+            for s_ in tree_:
+                ast.copy_location(s_, call)
+                ast.fix_missing_locations(s_)
+            return pre + tree_, ast.copy_location(ast.Name(id=ret, ctx=ast.Load()), call)
         return pre + stmts[:-1], stmts[-1].value
 
     def expand_expr(call, hit):
@@ -1453,11 +1737,17 @@ def inline_helpers(tree):
                 selfname = st.args.args[0].arg if is_method_here else (ctx[2] if not ctx[3] else None)
                 if not ctx[3] and ctx[2] is not None and any(a_.arg == ctx[2] for a_ in st.args.args + st.args.kwonlyargs):
                     selfname = None  # a nested function that shadows the enclosing method's self
-                process_block(st.body, (st.name if ctx[3] or ctx[0] is None else ctx[0], ctx[1], selfname, False))
+                outer_id = ctx[4] if len(ctx) > 4 and ctx[4] is not None and not ctx[3] and ctx[0] is not None else id(st)
+                nested_here = outer_id != id(st)
+                shadow = set()
+                if nested_here:
+                    shadow = (ctx[5] if len(ctx) > 5 else set()) | {a_.arg for a_ in st.args.args + st.args.kwonlyargs + st.args.posonlyargs} | \
+                        {x.id for x in ast.walk(st) if isinstance(x, ast.Name) and isinstance(x.ctx, ast.Store)}
+                process_block(st.body, (st.name if ctx[3] or ctx[0] is None else ctx[0], ctx[1], selfname, False, outer_id, shadow))
                 i += 1
                 continue
             if isinstance(st, ast.ClassDef):
-                process_block(st.body, (None, st.name, None, True))
+                process_block(st.body, (None, st.name, None, True, None, set()))
                 i += 1
                 continue
             # calls in the expressions that belong to this statement itself (not to nested blocks)
@@ -1543,8 +1833,67 @@ def inline_helpers(tree):
             i += 1
 
     process_block._failed = set()
-    process_block(tree.body, (None, None, None, False))
+    process_block(tree.body, (None, None, None, False, None, set()))
     ast.fix_missing_locations(tree)
     return total[0]
 
 
+
+
+def renumber_lines(tree):
+    """after the rewrites, line numbers no longer say in which order things happen (an inlined helper statement keeps the helper's
+    lines).  Every node keeps its source line in `_src_line` (used for reporting) and `lineno` is re-assigned in pre-order, one line
+    per statement, expressions on the line of their statement -- so that `a.lineno < b.lineno` means "a comes first" again."""
+    counter = [0]
+
+    def stmt(st):
+        counter[0] += 1
+        line = counter[0]
+        for x in _own_nodes(st):
+            if hasattr(x, "lineno"):
+                if not hasattr(x, "_src_line"):
+                    x._src_line = x.lineno
+                x.lineno = line
+                if hasattr(x, "end_lineno"):
+                    x.end_lineno = line
+        for f in ("body", "orelse", "finalbody"):
+            blk = getattr(st, f, None)
+            if isinstance(blk, list):
+                for s_ in blk:
+                    if isinstance(s_, ast.stmt):
+                        stmt(s_)
+        for h in getattr(st, "handlers", []) or []:
+            counter[0] += 1
+            if not hasattr(h, "_src_line"):
+                h._src_line = getattr(h, "lineno", 0)
+            h.lineno = counter[0]
+            for s_ in h.body:
+                stmt(s_)
+        for c in getattr(st, "cases", []) or []:
+            for x in ast.walk(c.pattern):
+                if hasattr(x, "lineno") and not hasattr(x, "_src_line"):
+                    x._src_line = x.lineno
+            for s_ in c.body:
+                stmt(s_)
+        if hasattr(st, "end_lineno"):
+            st.end_lineno = counter[0]
+
+    def _own_nodes(st):
+        """st and the expression nodes that belong to it (not to the statements nested in it)"""
+        yield st
+        stack = []
+        for f, v in ast.iter_fields(st):
+            if f in ("body", "orelse", "finalbody", "handlers", "cases") and isinstance(v, list) and v and isinstance(v[0], (ast.stmt, ast.ExceptHandler, ast.match_case)):
+                continue
+            if isinstance(v, ast.AST):
+                stack.append(v)
+            elif isinstance(v, list):
+                stack += [x for x in v if isinstance(x, ast.AST)]
+        while stack:
+            x = stack.pop()
+            yield x
+            if isinstance(x, ast.Lambda) or not isinstance(x, ast.stmt):
+                stack += list(ast.iter_child_nodes(x))
+
+    for s_ in tree.body:
+        stmt(s_)
